@@ -706,6 +706,25 @@ fn convert_qualified_var(
         }
     }
 
+    // A re-export (`pub use a::f` inside module b) must not publish what its own module
+    // could not see: check the alias target from the position of the re-exporting module.
+    if lookup_name != resolved_name
+        && resolved_path.len() > 1
+        && let Some(&target_is_public) = ctx.module_info.visibility_map.get(&lookup_name)
+        && !target_is_public
+    {
+        let target_path = extract_path_from_mangled(lookup_name);
+        let reexporting_module = &resolved_path[..resolved_path.len() - 1];
+        let target_module = &target_path[..target_path.len().saturating_sub(1)];
+        if !reexporting_module.starts_with(target_module) {
+            ctx.errors.push(Error::PrivateMemberAccess {
+                module_path: target_module.to_vec(),
+                member: *target_path.last().unwrap(),
+                location: loc.clone(),
+            });
+        }
+    }
+
     Expr::Var(lookup_name).into_id(loc)
 }
 
